@@ -64,6 +64,7 @@ def contracts():
                  "same_object(call_arg('analyze_and_overwrite_pages', 0, 2), analyze_template_func)",
                  "implies(not skip_extract_dump, same_object(call_arg('parse_dump_xml', 0, 0), path))",
                  "implies(not skip_extract_dump, same_object(call_arg('parse_dump_xml', 0, 1), namespace_ids))"]))
+    cs.extend(overwrite_single_page_contracts())
     cs.append(template_to_body_contract())
     # a template page is stored with exactly the reduction of the body it was given; any other page verbatim
     cs.append(Contract(
@@ -104,6 +105,28 @@ def analysis_pipeline_contract():
                  "implies(overwrite_folders is not None, logged('overwrite_pages') == 2 and "
                  "call_arg('overwrite_pages', 0, 1) == False and call_arg('overwrite_pages', 1, 1) == True and "
                  "same_object(call_arg('overwrite_pages', 1, 0), overwrite_folders))"])
+
+
+def overwrite_single_page_contracts():
+    """an override entry is stored by exactly one add_page with the entry's title, body, redirect target and flag --
+    and nothing is written by the probing pass (do_overwrite == False); namespace id given by the entry"""
+    out = []
+    # (the variant "namespace id derived from the title" is not under contract: NS_ID_BY_LOCAL_NAME.get is not modelled)
+    for variant, nskind in (("ns_given", "int"),):
+        ens = ["logged('add_page') == (1 if do_overwrite else 0)",
+               "implies(do_overwrite, same_object(call_arg('add_page', 0, 0), title))",
+               "implies(do_overwrite, same_object(call_kw('add_page', 0, 'body'), body))",
+               "implies(do_overwrite, same_object(call_kw('add_page', 0, 'redirect_to'), redirect_to))",
+               "implies(do_overwrite, same_object(call_kw('add_page', 0, 'need_pre_expand'), need_pre_expand))",
+               "implies(do_overwrite, result == False)"]
+        if nskind == "int":
+            ens.append("implies(do_overwrite, same_object(call_arg('add_page', 0, 1), namespace_id))")
+        out.append(Contract(
+            target="dumpparser:overwrite_single_page", variant=variant, prop="C12", mode="frame",
+            params={"wtp": "ctx", "title": "str", "do_overwrite": "bool", "namespace_id": nskind, "redirect_to": "optstr",
+                    "need_pre_expand": "bool", "body": "optstr", "model": "str"},
+            track_log=True, log_names=["add_page"], ensures=ens))
+    return out
 
 
 def pipeline_registry(reg):
